@@ -20,7 +20,7 @@ type SerCase struct {
 	gen.Case
 	WantLen  int        `json:"want_len,omitempty"`
 	WantCS   int        `json:"want_cs"`
-	MutKind  int        `json:"mut_kind"` // 0 none, 1 change/populate a leaf, 2 unset a leaf, 3 append a group entry, 4 take a field out with KeyValue.Set(nil), 5 a Set call the value refuses (wrong Go type): nothing may change
+	MutKind  int        `json:"mut_kind"` // 0 none, 1 change/populate a leaf, 2 unset a leaf, 3 append a group entry, 4 take a field out with KeyValue.Set(nil), 5 a Set call the value refuses (wrong Go type): nothing may change, 6 SetBody called again with the body's own items
 	MutIndex int        `json:"mut_index"`
 	MutVals  []*gen.Val `json:"mut_vals,omitempty"` // one candidate per value type, indexed by VT
 	MutEntry int        `json:"mut_entry"`          // which existing entry to clone when appending
@@ -70,7 +70,7 @@ func genSerCase(t *rapid.T) *SerCase {
 			sc.WantLen, sc.WantCS = 0, -1
 		}
 	}
-	sc.MutKind = rapid.SampledFrom([]int{0, 1, 1, 1, 2, 3, 4, 5}).Draw(t, "mutKind")
+	sc.MutKind = rapid.SampledFrom([]int{0, 1, 1, 1, 2, 3, 4, 5, 6}).Draw(t, "mutKind")
 	sc.MutIndex = rapid.IntRange(0, 1000).Draw(t, "mutIndex")
 	sc.MutEntry = rapid.IntRange(0, 10).Draw(t, "mutEntry")
 	if sc.MutKind == 1 {
@@ -92,6 +92,14 @@ func genSerCase(t *rapid.T) *SerCase {
 func applyMut(m *fix.Message, sc *SerCase) (string, error) {
 	c := &sc.Case
 	switch sc.MutKind {
+	case 6:
+		// the application specifies the body again (SetBody with the items the message holds): it
+		// replaces the body, it does not extend it
+		if len(m.Body()) == 0 {
+			return "none", nil
+		}
+		m.SetBody(append(fix.Items(nil), m.Body()...)...)
+		return "setbody-again", nil
 	case 1, 2, 4, 5:
 		var leaves []build.LeafRef
 		build.Leaves(m.Header().Items(), c.Tpl.Header, c.Header, false, false, &leaves)
